@@ -185,21 +185,26 @@ def allOk {α : Type} : List (Outcome α) → Outcome (List α)
   | .panic c :: _ => .panic c
   | .err e :: _ => .err e
 
-/-- transpose rows of slot vectors into per-slot row lists -/
-def slotRows (K : Nat) (rows : List (List C64 × List C64)) : List (List (C64 × C64)) :=
-  let ra := rows.map (fun r => (r.1.toArray, r.2.toArray))
-  (List.range (2 ^ K)).map (fun i => ra.map (fun r => (r.1.getD i (nanBits, nanBits), r.2.getD i (nanBits, nanBits))))
+/-- one row of `reim4_vec_mat1col_product_avx` on whole slot vectors -/
+def mat1colRow (S : List Acc4) (u v : List C64) : List Acc4 :=
+  List.zipWith (fun s uv => mat1colStep s uv.1 uv.2) S (u.zip v)
 
-/-- `vmp_prepare`; `vmp_apply_dft`; `idft`, one output column (`ncols = 1`: `reim4_vec_mat1col_product_avx`);
-`kernel = 2` selects the accumulation order of the 2-column kernels (what the same entry computes when the matrix has
-an even number of output limbs) -/
+/-- one row of the 2-column kernels on whole slot vectors (one column) -/
+def mat2colsRow (S : List C64) (u v : List C64) : List C64 :=
+  List.zipWith (fun s uv => mat2colsStep s uv.1 uv.2) S (u.zip v)
+
+/-- the accumulation of `vmp_apply_dft_to_dft` for one output column, all slots: `kernel = 1`:
+`reim4_vec_mat1col_product_avx` (`ncols` odd, last column), otherwise the 2-column kernels -/
+def vmpAccAvx (K : Nat) (kernel : Nat) (rows : List (List C64 × List C64)) : List C64 :=
+  if kernel = 2 then rows.foldl (fun S r => mat2colsRow S r.1 r.2) (List.replicate (2 ^ K) (0, 0))
+  else (rows.foldl (fun S r => mat1colRow S r.1 r.2) (List.replicate (2 ^ K) ⟨0, 0, 0, 0⟩)).map mat1colFin
+
+/-- `vmp_prepare`; `vmp_apply_dft`; `idft`, one output column -/
 def vmpPipelineAvx (K : Nat) (omg iomg : Array Nat) (kernel : Nat) (rows : List (List Int × List Int)) : Outcome (List Int) :=
   if 2 * 2 ^ K < 8 then .panic "assert"
   else
     match allOk (rows.map (fun r => dftOfAvx K omg r.1)), allOk (rows.map (fun r => dftOfAvx K omg r.2)) with
-    | .ok us, .ok vs =>
-      let acc := (slotRows K (us.zip vs)).map (fun l => if kernel = 2 then mat2cols l else mat1col l)
-      .ok (idftOfAvx K iomg acc)
+    | .ok us, .ok vs => .ok (idftOfAvx K iomg (vmpAccAvx K kernel (us.zip vs)))
     | .panic c, _ => .panic c
     | _, .panic c => .panic c
     | _, _ => .err "internal"
